@@ -456,6 +456,7 @@ type tracer struct {
 	recName map[int]string
 	nextTx  int
 	nextRec int
+	waiters map[any]int     // channel of a blocking pop -> waiter number
 	mini    map[any]*miniTx // who (a *int64) -> state of the mini transaction
 	miniRec map[int]any     // record -> mini transaction currently holding it in w mode
 }
@@ -466,7 +467,7 @@ type miniTx struct {
 }
 
 func newTracer() *tracer {
-	return &tracer{txIDs: map[any]int{}, recIDs: map[any]int{}, recName: map[int]string{}, mini: map[any]*miniTx{}, miniRec: map[int]any{}}
+	return &tracer{txIDs: map[any]int{}, recIDs: map[any]int{}, recName: map[int]string{}, mini: map[any]*miniTx{}, miniRec: map[int]any{}, waiters: map[any]int{}}
 }
 
 func kx(key string) string { return fmt.Sprintf("k%x", key) }
@@ -497,6 +498,28 @@ func (tr *tracer) hook(ev string, who any, key string, m any, flag bool) {
 	defer tr.mu.Unlock()
 	if ev == "clear" {
 		tr.emit("clear")
+		return
+	}
+	if strings.HasPrefix(ev, "bp-") {
+		// wake-up protocol of the blocking pops: a separate model (`bev` lines)
+		w, ok := tr.waiters[who]
+		if !ok {
+			tr.nextTx++
+			w = tr.nextTx
+			tr.waiters[who] = w
+		}
+		line := ""
+		switch ev {
+		case "bp-reg", "bp-notify", "bp-unreg":
+			line = fmt.Sprintf("bev %s %d %s", ev[3:], w, kx(key))
+		case "bp-try":
+			line = fmt.Sprintf("bev try %d %s %s", w, kx(key), b01(flag))
+		case "bp-block":
+			line = fmt.Sprintf("bev block %d %s", w, b01(flag))
+		case "bp-wake", "bp-timeout":
+			line = fmt.Sprintf("bev %s %d", ev[3:], w)
+		}
+		tr.lines = append(tr.lines, line)
 		return
 	}
 	if ev == "current" {
